@@ -108,6 +108,18 @@ def handle (st : St) (idx : Nat) (line : String) : St × String :=
        | none => bad)
     | "resource" :: "claim" :: rest =>
       (st, emit idx impl (judgeClaim ((kvNat rest "declared").getD 0) ((kvNat rest "supplied").getD 0) implToks))
+    | "resource" :: "buflen" :: rest =>
+      -- MessageBufferLength is a variable the application may set; whatever its value was when a
+      -- pooled buffer was made, a well-formed message is read (C03_message_nopanic has no such
+      -- premise) and a message is written whole (C07: every size)
+      let rd := (kv implToks "err").getD (implToks.headD "")
+      let wr := (kv implToks "w").getD "-"
+      (st, emit idx impl { model := "err=ok w=ok",
+                           fails := (if rd = "ok" then [] else
+                             (if rd.startsWith "panic" ∨ rd.startsWith "crash" then ["C03:panic-reading-a-well-formed-message-after-the-buffer-length-was-changed"]
+                              else ["C03:well-formed-message-rejected-after-the-buffer-length-was-changed"])) ++
+                            (if wr = "ok" then [] else ["C07:message-not-written-after-the-buffer-length-was-raised"]),
+                           tags := [s!"buflen to={(kvNat rest "to").getD 0} body={(kvNat rest "body").getD 0}"] })
     | "resource" :: "retain" :: rest =>
       (st, emit idx impl (judgeRetain ((kvNat rest "msgs").getD 0) ((kvNat rest "per").getD 0) ((kvNat rest "g").getD 0) implToks))
     | "resource" :: "nest" :: rest =>
@@ -141,6 +153,18 @@ def handle (st : St) (idx : Nat) (line : String) : St × String :=
       (st, emit idx impl { model := model,
                            fails := if implOut = model then [] else ["C07:message-reported-written-has-not-reached-the-transport"],
                            tags := [s!"pipeline n={pat.length}"] })
+    | "conn" :: "wfail" :: rest =>
+      -- a failed write is not the end of the connection: the channel closes only when the
+      -- connection is gone (C14_only_when_gone), and then it does (C14_once)
+      let model := "w=err early=quiet alive=1 end=fired"
+      let early := (kv implToks "early").getD ""
+      let alive := (kv implToks "alive").getD ""
+      let fin := (kv implToks "end").getD ""
+      (st, emit idx impl { model := model,
+                           fails := (if early = "fired" then ["C14:close-notify-fired-while-the-connection-was-alive"] else []) ++
+                                    (if alive = "1" then [] else ["C15:connection-lost-after-a-failed-write"]) ++
+                                    (if fin = "fired" then [] else ["C14:close-notify-did-not-fire"]),
+                           tags := [s!"wfail cn={(kvNat rest "cn").getD 0} kind={(kv rest "kind").getD "-"}"] })
     | "conn" :: "stall" :: rest =>
       -- however a connection with a stuck writer ends, its transport is closed - which is what
       -- fails the stuck write (C15_write_contained / C15_late_write_fails) -, the notification
